@@ -120,8 +120,9 @@ def gen_function(contract, contracts, known=()):
         specs = dict(zip(names, combo))
         case_tag = ""
         consts = {n: s.value for n, s in specs.items() if isinstance(s, C.TConst) and isinstance(contract.params[n], C.TOneOf)}
-        if consts:
-            case_tag = "[" + ",".join(f"{k}={v}" for k, v in consts.items()) + "]"
+        tagged = {n: s.value for n, s in specs.items() if hasattr(s, "value") and len(contract.params[n].cases()) > 1}
+        if tagged:
+            case_tag = "[" + ",".join(f"{k}={v}" for k, v in tagged.items()) + "]"
         interp = new_interp(contracts)
         interp.current_target = contract.key
         if contract.setup:
@@ -142,6 +143,8 @@ def gen_function(contract, contracts, known=()):
             S.GHOST["sum_labels"] = []
             S.GHOST["flatten"] = []
             interp.write_log = []
+            interp.cached_calls = set()
+            interp.cached_mutated = False
             interp.spec = 0
             V.reset_fresh()
             bound = {n: s.fresh(n, path) for n, s in specs.items()}
@@ -202,6 +205,12 @@ def gen_function(contract, contracts, known=()):
                 path.obligations.append(X.Obligation(f"lemma.{lname}", [], gt,
                                                      {"kind": "ensures", "clause": "True", "clause_name": f"lemma.{lname}",
                                                       "lemma": ltext}, []))
+            if interp.cached_calls:
+                # frame clause decided by the executor's write log: no array returned by a memoised helper (shared
+                # between callers and dask workers) was updated in place on this path
+                path.oblige("frame.cached_results_read_only", not interp.cached_mutated,
+                            {"kind": "safety", "clause": "results of lru_cache'd helpers are not updated in place: "
+                             + ", ".join(sorted(k.split(":")[-1] for k in interp.cached_calls))})
             path.oblige("canary", False, {"kind": "canary"})
             return result
 
@@ -428,6 +437,26 @@ def build_replay(pid, contract, ob_name, meta, model, verdict_raw):
                 "print('unexpected exception under a satisfied precondition:', repr(raised))",
                 "print('CONFIRMED' if bad else 'NOT-CONFIRMED'); sys.exit(1 if bad else 0)",
             ]
+        elif ".frame." in ob_name or "/frame." in ob_name:
+            # frame obligation on memoised helpers: the real function, called twice with equal inputs, must give equal
+            # results (an in-place update of a cached grid changes what the next caller / worker thread gets)
+            lines += [
+                "first = result; raised1 = raised",
+                "try:",
+                f"    result = {call}",
+                "except Exception as e:",
+                "    raised = e",
+                "def _same(a, b):",
+                "    if isinstance(a, (tuple, list)):",
+                "        return len(a) == len(b) and all(_same(x, y) for x, y in zip(a, b))",
+                "    try:",
+                "        return bool(np.array_equal(np.asarray(a), np.asarray(b), equal_nan=True))",
+                "    except Exception:",
+                "        return True",
+                "bad = (raised is None) != (raised1 is None) or (raised is None and not _same(first, result))",
+                "print('same inputs, second call gives the same result:', not bad)",
+                "print('CONFIRMED' if bad else 'NO-FAILING-INPUT'); sys.exit(1 if bad else 2)",
+            ]
         else:
             # safety / call-site precondition: the concrete run must fail (exception) or the clause be false
             lines += [
@@ -538,7 +567,11 @@ def check_property(pid, tier="quick", seed=0, bounded_hooks=None, only=None, wri
             run.say(f"CHECKER-FAULT property={pid} function={c.key}: no live path (vacuous precondition?)")
             run.faults.append(f"{c.key}: no live path")
             continue
-        n_ens = sum(1 for o in rep.obligations if o[3].get("kind") in ("ensures", "raises", "raises_missing", "exception"))
+        sel = c.only.get(pid)
+        if sel:
+            rep.obligations = [o for o in rep.obligations if any(s_ in o[0] for s_ in sel)]
+            rep.only = list(sel)
+        n_ens = sum(1 for o in rep.obligations if sel or o[3].get("kind") in ("ensures", "raises", "raises_missing", "exception"))
         if n_ens == 0:
             run.say(f"CHECKER-FAULT property={pid} function={c.key}: zero contract obligations generated")
             run.faults.append(f"{c.key}: zero obligations")
